@@ -1117,4 +1117,56 @@ example : (serve (adaptSite wHandleSite) false [] ⟨0, 0, 1, 0, [], none, none,
 example : (serve (adaptSite wHandleSite) false [] ⟨0, 0, 4, 0, [], none, none, 4, []⟩).status = some 205 := by decide
 example : (serve (adaptSite wHandleSite) false [] ⟨0, 0, 3, 0, [], none, none, 3, []⟩).status = some 206 := by decide
 
+theorem terminal_stops' (g : Nat) (sets : List (List Matcher)) (hs : List Handler) (rest : List Route)
+    (k : K) (r : Req) (t : Trace) (h : anyMatch sets r = .ok true) (hg : groupDone g r = false) :
+    runRoutes (.mk g sets hs true :: rest) k r t = runHandlers hs (termK r) (markGroup g r) t := by
+  simp [runRoutes, runRoute, h, hg]
+
+/-! ### several sites on one server: what the wrapping of a site block guarantees -/
+
+/-- **site blocks do not cascade**: the route a site block becomes (host matcher, the site's routes
+    in a subroute, `terminal: true`) gives a request for that host to the site's routes and to
+    nothing else — whatever follows in the server's route list and whatever the enclosing chain
+    is; the site's routes end in the empty handler (or, in the error chain, in the handler that
+    writes the error's status). -/
+theorem site_wrapper_takes_its_host (h : Nat) (routes rest : List Route) (k : K) (r : Req) (t : Trace)
+    (hr : r.host = h) (hne : routes ≠ []) :
+    runRoutes (wrapSite (some h) routes ++ rest) k r t = runRoutes routes (termK r) r t := by
+  have he : routes.isEmpty = false := by cases routes <;> simp_all
+  simp only [wrapSite, Option.isNone_some, Bool.false_and, Bool.false_eq_true, if_false, he,
+    List.cons_append, List.nil_append, hostSets]
+  rw [terminal_stops' 0 [[.atom .host [h]]] [.sub routes false []] rest k r t
+    (by simp [anyMatch, evalAny, evalSet, evalMatcher, Req.get, hr]) (by simp [groupDone])]
+  simp only [runHandlers, markGroup, bne_self_eq_false, Bool.false_eq_true, if_false]
+  exact runHandler_sub_without_errors routes [] (termK r) r t
+
+/-- … and leaves every other host to the blocks that follow, untouched. -/
+theorem site_wrapper_skips_other_hosts (h : Nat) (routes rest : List Route) (k : K) (r : Req) (t : Trace)
+    (hr : r.host ≠ h) :
+    runRoutes (wrapSite (some h) routes ++ rest) k r t = runRoutes rest k r t := by
+  have hm : anyMatch (hostSets (some h)) r = .ok false := by
+    have : decide (r.host = h) = false := by simp [hr]
+    simp [hostSets, anyMatch, evalAny, evalSet, evalMatcher, Req.get, this]
+  unfold wrapSite
+  simp only [Option.isNone_some, Bool.false_and, Bool.false_eq_true, if_false, List.cons_append,
+    List.nil_append, runRoutes, runRoute, hm]
+
+/-- a.test { error 404 }   :8080 { respond 299; handle_errors { respond 211 } } -/
+def wTwoSites : List Site :=
+  [ ⟨some 0, [.respond 1404], []⟩, ⟨none, [.respond 299], [⟨[], [.respond 211]⟩]⟩ ]
+
+/-
+FULL STATEMENT (false for the adapter as it is): "site blocks do not cascade nor inherit" also for
+errors — an error raised in a site is handled by THAT site's `handle_errors` blocks, or by none.
+Only sites that have `handle_errors` blocks get a wrapper in the server's error routes, so the
+error of a site without any falls through to the next wrapper whose address matches: here the
+404 of a.test is answered 211 by the `handle_errors` of the block without a host.
+-/
+theorem site_error_reaches_other_sites_handle_errors :
+    (adaptSites wTwoSites).map (fun x => (serve x.1 x.2.1 x.2.2 ⟨0, 0, 1, 0, [], none, none, 1, []⟩).status)
+      = some (some 211) ∧
+    (adaptSites [⟨some 0, [.respond 1404], []⟩]).map
+        (fun x => (serve x.1 x.2.1 x.2.2 ⟨0, 0, 1, 0, [], none, none, 1, []⟩).status)
+      = some (some 404) := by decide
+
 end CaddyModel.C05
